@@ -476,11 +476,14 @@ class FmtStr:
         """Return a list of lines, split on newline characters,
         include line boundaries, if keepends is true."""
         lines = self.split("\n")
-        return (
-            [line + "\n" for line in lines]
-            if keepends
-            else (lines if lines[-1] else lines[:-1])
-        )
+        if keepends:
+            # every line but the last is followed by a newline; take it from self so it keeps its formatting
+            with_ends, pos = [], 0
+            for line in lines[:-1]:
+                with_ends.append(self[pos : pos + len(line) + 1])
+                pos += len(line) + 1
+            lines = with_ends + lines[-1:]
+        return lines if lines[-1] else lines[:-1]
 
     # proxying to the string via __getattr__ is insufficient
     # because we shouldn't drop foreground or formatting info
